@@ -68,6 +68,7 @@ def _caller_deme(depth: int = 2):
 class Recorder:
     def __init__(self, fn: str, bounds, maximize: bool, max_consults: int = 4000):
         self.fn = fn
+        self.fns = None                         # per-level objectives (multi-fidelity configurations), else None
         self.bounds = np.asarray(bounds, dtype=np.float64)
         self.maximize = maximize
         self.events: list[dict] = []
@@ -116,15 +117,27 @@ class Recorder:
         f = float(f)
         return -f if self.maximize else f
 
-    def truth(self, x) -> float:
-        return objectives.truth(self.fn, x, self.bounds, self.maximize)
+    def fn_of(self, level: int) -> str:
+        return self.fns[level] if self.fns else self.fn
+
+    def level_of(self, ind) -> int:
+        """level whose objective an individual is evaluated with (the harness tags each level's FunctionProblem)"""
+        p = getattr(ind, "problem", None)
+        for _ in range(12):
+            if p is None or hasattr(p, "_verif_level"):
+                break
+            p = getattr(p, "_inner", None)
+        return int(getattr(p, "_verif_level", 0))
+
+    def truth(self, x, level: int = 0) -> float:
+        return objectives.truth(self.fn_of(level), x, self.bounds, self.maximize)
 
     def ind(self, ind) -> list:
         """[gid, goodness(raw float, ranked later), inbox, tru] ; tru: 1 true fitness, 0 wrong, 2 cutoff sentinel"""
         f = ind.fitness
         if f is None or (isinstance(f, float) and math.isnan(f)):
             # NaN is the true fitness of a genome at which the objective is NaN (tru = 1); otherwise 3
-            t = self.truth(ind.genome)
+            t = self.truth(ind.genome, self.level_of(ind))
             tru = 1 if (f is not None and isinstance(t, float) and math.isnan(t)) else 3
             return [self.gid(ind.genome), ("G", math.inf), self.inbox(ind.genome), tru]
         f = float(f)
@@ -132,7 +145,7 @@ class Recorder:
         sentinel = math.isinf(f) and ((f < 0) == self.maximize)
         if sentinel and self.refused > 0:
             tru = 2                       # once a budget wrapper refuses, the worst infinity is the documented sentinel
-        elif self.truth(ind.genome) == f:
+        elif self.truth(ind.genome, self.level_of(ind)) == f:
             tru = 1                       # (an objective may itself return the worst infinity)
         elif sentinel:
             tru = 2
@@ -464,7 +477,7 @@ class LevelObjective:
         self.level = level
 
     def __call__(self, x, *a, **k):
-        v = objectives.truth(self.rec.fn, x, self.rec.bounds, self.rec.maximize)
+        v = objectives.truth(self.rec.fn_of(self.level), x, self.rec.bounds, self.rec.maximize)
         self.rec.note_call(self.level, x, v)
         return v
 
